@@ -243,6 +243,10 @@ func (n *LNode) Step(e Event, raw *interfaces.ConsensusRawMessage, info ref.Info
 		obs.Viol = append(obs.Viol, Violation{Prop: prop, Clause: clause, Detail: fmt.Sprintf("n%d: ", n.Idx) + fmt.Sprintf(format, a...)})
 	}
 
+	// ---- C13: the observable (height, view) never decreases
+	if height < preHeight || (height == preHeight && view < preView) {
+		bad("C13", "state-decreased", "(height, view) went from (%d,%d) to (%d,%d) on %c %s", preHeight, preView, height, view, e.Kind, info.Desc())
+	}
 	// ---- C13: the heights handed to the new-round callback strictly increase (also when cached messages of the next
 	// height decide it inside the step that starts it)
 	for k := preRounds; k < len(n.Rounds); k++ {
